@@ -153,10 +153,12 @@ func (cs *ContractSet) loadFile(path, repo string) error {
 	var c *Contract
 	var fileUses []string
 	var fileContracts []*Contract
+	var fileLets []LetDef
 	defer func() {
 		for _, fc := range fileContracts {
 			if fc != nil {
 				fc.Uses = append(fc.Uses, fileUses...)
+				fc.Lets = append(fc.Lets, fileLets...)
 			}
 		}
 	}()
@@ -179,6 +181,15 @@ func (cs *ContractSet) loadFile(path, repo string) error {
 			c = &Contract{Pkg: pkgPath, Func: name, Mode: "bits", Loops: map[int]*LoopSpec{}, File: path, Line: l.line}
 			fileContracts = append(fileContracts, c)
 			cs.ByFunc[c.Key()] = append(cs.ByFunc[c.Key()], c)
+			continue
+		}
+		if c == nil && kw == "let" {
+			name, body := splitWord(strings.TrimSpace(rest))
+			e, err := parseSexp(body)
+			if err != nil {
+				return fail("%v", err)
+			}
+			fileLets = append(fileLets, LetDef{Name: name, Expr: e})
 			continue
 		}
 		if c == nil {
